@@ -554,6 +554,11 @@ func cmdCheck(prop, tier string) int {
 	// ---- shrink, confirm and classify findings ----
 	known := loadKnown()
 	sort.SliceStable(finds, func(i, j int) bool {
+		// new violations first: known findings must not use up the maxFinds
+		// slots and thereby hide a real violation (C16 has five known classes)
+		if finds[i].known != finds[j].known {
+			return !finds[i].known
+		}
 		if finds[i].v.Rule != finds[j].v.Rule {
 			return finds[i].v.Rule < finds[j].v.Rule
 		}
